@@ -85,3 +85,23 @@ pub fn bits_of<T>(val: &T) -> i64 {
     }
     out
 }
+
+// ---------------------------------------------------------------------------------------------------------
+// Clock hook: `utils::misc::unix_time_ms()` asks `clock_override()` first. A thread that has installed a
+// scripted clock with `set_clock` gets the script's values (and the script may act as the environment at that
+// instant); every other thread keeps the system clock. Nothing changes when no clock is installed.
+
+thread_local! {
+    static CLOCK: std::cell::RefCell<Option<Box<dyn FnMut() -> u64>>> = const { std::cell::RefCell::new(None) };
+}
+
+/// Install (or with `None` remove) this thread's scripted clock.
+pub fn set_clock(f: Option<Box<dyn FnMut() -> u64>>) {
+    CLOCK.with(|c| *c.borrow_mut() = f);
+}
+
+/// The scripted clock's next value, if this thread has one.
+#[inline]
+pub fn clock_override() -> Option<u64> {
+    CLOCK.with(|c| c.borrow_mut().as_mut().map(|f| f()))
+}
